@@ -176,6 +176,9 @@ def extract(repo):
     if not re.search(r'_file\.seekg\(\s*begin\s*\);\s*findNormalString\(\s*"\("\s*\);\s*_file\.seekg\(\s*_file\.tellg\(\)\s*-\s*std::streampos\(\s*1\s*\)\s*\);',
                      before):
         raise ValueError("getRealInstance: seekg( begin ); findNormalString( \"(\" ); seekg( -1 ) before STEPread not recognised")
+    # the recorded offset is where nextInstance starts, before the layout in front of `#` (C10_materialise_partial's `begin`)
+    if not re.search(r"i\.loc\.begin\s*=\s*_file\.tellg\(\);\s*i\.loc\.instance\s*=\s*readInstanceNumber\(\);", ni):
+        raise ValueError("nextInstance: begin = tellg() directly before readInstanceNumber() not recognised")
     fns = _strip_comments(_body(sr, r"sectionReader::findNormalString\s*\([^)]*\)\s*\{"))
     order = [fns.find(x) for x in ("skipWS();", "c = _file.get();", "c == '\\''", "GetLiteralStr(", "_file.peek() == '*'", "str[i] == c")]
     if -1 in order or order != sorted(order) or not re.search(r"c == '/' \) && \( _file\.peek\(\) == '\*' \) \) \{\s*skipComment\(\);", fns):
